@@ -1,0 +1,12 @@
+//go:build verif
+
+package block
+
+import "github.com/evstack/ev-node/types"
+
+// VerifC01ExecValidate exposes execValidate (the validation a full node applies to a block against
+// a given last state) so that the C01/C04 oracle can re-validate a stored chain block by block.
+// Nothing here changes behaviour; no existing line is edited.
+func (m *Manager) VerifC01ExecValidate(lastState types.State, header *types.SignedHeader, data *types.Data) error {
+	return m.execValidate(lastState, header, data)
+}
